@@ -110,7 +110,7 @@ def genuineUdp4 (c : UdpCfg) (sent : List Sent) (t : Nat) (a : Bytes) (dest : Bo
         ((q.icmpType = 11 && q.icmpCode = 0) || q.icmpType = 3) &&
         q.qDst = c.target && dp = c.tport && (c.loosen || (q.qSrc = c.localA && sp = c.lport)) &&
         sent.any (fun s => s.ttl = t && s.id = q.qId) && q.qId = (41821 + t) % 65536 &&
-        dest = (a = c.target)
+        (dest == decide (a = c.target))
 
 /-- TCP SYN, quoted form: time-exceeded code 0 from `a` quoting (id, seq) of the probe for TTL `t` -/
 def genuineTcpQuoted (c : TcpCfg) (sent : List Sent) (t : Nat) (a p : Bytes) : Bool :=
@@ -161,7 +161,7 @@ def genuineSackQuoted (c : SackCfg) (sent : List Sent) (t : Nat) (a : Bytes) (de
         v.outerSrc = a && v.outerProto = 1 && v.outerFrag = 0 && q.icmpType = 11 && q.icmpCode = 0 &&
         q.qDst = c.target && dp = c.tport && (c.loosen || (q.qSrc = c.localA && sp = c.lport)) &&
         (sq + 4294967296 - c.isn % 4294967296) % 4294967296 = t &&
-        sentTTL sent t && c.min ≤ t && t ≤ c.max && dest = (a = c.target)
+        sentTTL sent t && c.min ≤ t && t ≤ c.max && (dest == decide (a = c.target))
       | _, _ => false
 
 /-- SACK, direct form: an ACK (no SYN/FIN/RST) from the target port to our port whose smallest
@@ -269,6 +269,6 @@ def genuineUdp6 (c : UdpCfg) (sent : List Sent) (t : Nat) (a : Bytes) (dest : Bo
         v.outerSrc = a && v.upper = 58 && ((q.icmpType = 3 && q.icmpCode = 0) || q.icmpType = 1) &&
         q.qDst = c.target && dp = c.tport && (c.loosen || (q.qSrc = c.localA && sp = c.lport)) &&
         q.qNh = 17 && q.qPlen = 13 + t && sent.any (fun s => s.ttl = t && s.id = q.qPlen) &&
-        dest = (a = c.target)
+        (dest == decide (a = c.target))
 
 end TRV.Spec
